@@ -121,8 +121,8 @@ Run(cls, n) == [i \in 1..n |-> Pattern(cls)[((i - 1) % Len(Pattern(cls))) + 1]]
 \* "<MB>" / "<AD>" stand for a multi-byte letter and a non-ASCII digit (concretised by the harness;
 \* TLC's output is not UTF-8 safe)
 Foreign(cls) == CASE cls = "n" -> {"A", " ", "<AD>"}
-                  [] cls = "a" -> {"1", "a", "{"}
-                  [] cls = "c" -> {"a", "{", "<MB>"}
+                  [] cls = "a" -> {"1", "a", "~"}
+                  [] cls = "c" -> {"a", "~", "<MB>"}
                   [] cls = "x" -> {"~", "<MB>"}
 TypLen(c) == IF c.max <= 6 THEN c.max ELSE IF c.min > 6 THEN c.min ELSE 6
 WithFirst(s, ch) == IF s = <<>> THEN <<ch>> ELSE [s EXCEPT ![1] = ch]
@@ -160,7 +160,8 @@ Typ(c) ==
     [] c.k = "alt"   -> TypSeq(c.alts[1], 1)
     [] c.k = "sem"   -> SemTyp(c.cls)
     [] c.k = "code"  -> CHOOSE w \in c.set : TRUE
-    [] c.k = "lines" -> IF c.max >= 2 THEN TypSeq(c.body, 1) \o <<"\n">> \o TypSeq(c.body, 1) ELSE TypSeq(c.body, 1)
+    [] c.k = "lines" -> IF c.max >= 2 /\ c.cls # "single"
+                        THEN TypSeq(c.body, 1) \o <<"\n">> \o TypSeq(c.body, 1) ELSE TypSeq(c.body, 1)
 
 (* A variant is a record [l |-> label, s |-> characters]; the label names the component
    (by position) and the deviation, and is what violation signatures are built from.      *)
@@ -198,8 +199,9 @@ Vars(c) ==
                               V("code-long", Typ(c) \o <<"X">>)}
     [] c.k = "lines" ->
          LET t == TypSeq(c.body, 1) IN
-           {V("1line", NLines(c, 1, t)), V("maxlines", NLines(c, c.max, t)), V("maxlines+1", NLines(c, c.max + 1, t))}
-           \cup Pre("line1.", {V(v.l, NLines(c, (IF c.max >= 2 THEN 2 ELSE 1), v.s)) : v \in VarsSeq(c.body, 1)})
+           (IF c.cls = "single" THEN {}
+            ELSE {V("1line", NLines(c, 1, t)), V("maxlines", NLines(c, c.max, t)), V("maxlines+1", NLines(c, c.max + 1, t))})
+           \cup Pre("line1.", {V(v.l, NLines(c, (IF c.max >= 2 /\ c.cls # "single" THEN 2 ELSE 1), v.s)) : v \in VarsSeq(c.body, 1)})
            \cup {V("trailing-nl", t \o <<"\n">>), V("blank-middle", t \o <<"\n", "\n">> \o t),
                  V("blank-first", <<"\n">> \o t), V("no-line", <<>>)}
 
@@ -220,9 +222,14 @@ PI       == Alt(<< <<Lit("/"), Cl("a", 1, 1), Lit("/"), Cl("x", 1, 34)>>, <<Lit(
 PILine   == Opt(<<PI, NL>>)
 Acct     == Opt(<<Lit("/"), Cl("x", 1, 34), NL>>)
 Name4    == Lines(1, 4, <<Cl("x", 1, 35)>>)
-Numbered == Lines(1, 4, <<Cl("n", 1, 1), Lit("/"), Cl("x", 1, 33)>>)
+\* numbered lines: the numbering discipline (1/ 2/ 3/ in order) is a semantic rule outside the
+\* format notation, so the generator keeps to a single line 1/...  (cls = "single")
+Numbered == [Lines(1, 4, <<Lit("1"), Lit("/"), Cl("x", 1, 33)>>) EXCEPT !.cls = "single"]
 Balance  == <<Sem("DC", 1), Sem("DATE", 6), Sem("CUR", 3), Sem("AMT", 15)>>
 
+\* "idline": the format starts with an optional account line [/34x] on a line of its own
+First(fmt) == IF fmt[1].k = "opt" /\ Len(fmt[1].body) = 3 /\ fmt[1].body[1].k = "lit" /\ fmt[1].body[3].k = "nl"
+              THEN "idline" ELSE "none"
 F(tag, fmt)  == [tag |-> tag, fmt |-> fmt, slash |-> FALSE, amt |-> FALSE]
 FS(tag, fmt) == [tag |-> tag, fmt |-> fmt, slash |-> TRUE,  amt |-> FALSE]
 FA(tag, fmt) == [tag |-> tag, fmt |-> fmt, slash |-> FALSE, amt |-> TRUE]
@@ -233,8 +240,10 @@ Codes71A == {<<"B", "E", "N">>, <<"O", "U", "R">>, <<"S", "H", "A">>}
 
 Formats == {
   F("11",  <<Cl("n", 3, 3), Sem("DATE", 6)>>),
-  F("11R", <<Cl("n", 3, 3), Sem("DATE", 6), Opt(<<Cl("n", 4, 4)>>), Opt(<<Cl("n", 6, 6)>>)>>),
-  F("11S", <<Cl("n", 3, 3), Sem("DATE", 6), Opt(<<Cl("n", 4, 4)>>), Opt(<<Cl("n", 6, 6)>>)>>),
+  \* documented 3!n6!n[4!n][6!n]; a sequence number without session number cannot be told from a
+  \* session number with two stray digits, so the sequence is nested in the session
+  F("11R", <<Cl("n", 3, 3), Sem("DATE", 6), Opt(<<Cl("n", 4, 4), Opt(<<Cl("n", 6, 6)>>)>>)>>),
+  F("11S", <<Cl("n", 3, 3), Sem("DATE", 6), Opt(<<Cl("n", 4, 4), Opt(<<Cl("n", 6, 6)>>)>>)>>),
   F("12",  <<Cl("n", 3, 3)>>),
   F("13C", <<Lit("/"), Code(Codes13C), Lit("/"), Sem("TIME", 4), Sem("SIGN", 1), Sem("OFFS", 4)>>),
   F("13D", <<Sem("DATE", 6), Sem("TIME", 4), Sem("SIGN", 1), Sem("OFFS", 4)>>),
@@ -242,7 +251,7 @@ Formats == {
   FS("21", <<Cl("x", 1, 16)>>),
   F("21C", <<Cl("x", 1, 35)>>), F("21D", <<Cl("x", 1, 35)>>), F("21E", <<Cl("x", 1, 35)>>),
   F("21F", <<Cl("x", 1, 16)>>), F("21R", <<Cl("x", 1, 16)>>),
-  F("23E", <<Cl("c", 4, 4), Opt(<<Lit("/"), Cl("x", 1, 35)>>)>>),
+  F("23E", <<Cl("a", 4, 4), Opt(<<Lit("/"), Cl("x", 1, 35)>>)>>),   \* documented 4!c; every defined code is 4 letters
   F("25",  <<Cl("x", 1, 35)>>),
   F("25A", <<Lit("/"), Cl("x", 1, 34)>>),
   F("26T", <<Cl("c", 3, 3)>>),
@@ -305,5 +314,5 @@ TypicalAccepted == InLanguage(fld, TypSeq(fld.fmt, 1))
 NonEmpty == InLanguage(fld, content.s) => Len(content.s) > 0
 
 Emit == EmitCases => PrintT(ToJson([tag |-> fld.tag, l |-> content.l, s |-> content.s,
-                                    accept |-> InLanguage(fld, content.s), amt |-> fld.amt]))
+                                    accept |-> InLanguage(fld, content.s), amt |-> fld.amt, first |-> First(fld.fmt)]))
 =============================================================================
